@@ -556,7 +556,8 @@ impl<C: CrcCalculator> Encapsulator<C> {
             encap_status = EncapStatus::CompletedPkt(buffer_offset as u16);
         }
         // if a fragment of the rest fits in the buffer
-        else if buffer_len > FIXED_HEADER_LEN + FRAG_ID_LEN {
+        // (when only the crc remains, an intermediate packet would carry nothing)
+        else if buffer_len > FIXED_HEADER_LEN + FRAG_ID_LEN && pdu_len_remaining > 0 {
             let gse_len: usize;
 
             let pdu_len_available = buffer_len - (FIXED_HEADER_LEN + FRAG_ID_LEN);
@@ -960,7 +961,8 @@ pub fn encap_frag_preview(
         pkt_len = buffer_offset as u16;
     }
     // if a fragment of the rest fits in the buffer
-    else if buffer_len > FIXED_HEADER_LEN + FRAG_ID_LEN {
+    // (when only the crc remains, an intermediate packet would carry nothing)
+    else if buffer_len > FIXED_HEADER_LEN + FRAG_ID_LEN && pdu_len_remaining > 0 {
         let gse_len: usize;
 
         let pdu_len_available = buffer_len - (FIXED_HEADER_LEN + FRAG_ID_LEN);
